@@ -245,6 +245,20 @@ def run(ctx, idx):
                 extra = list(n_.args[1:]) + [k.value for k in n_.keywords if k.arg in ("dialect", "delimiter", "quotechar", "escapechar", "quoting", "skipinitialspace", "doublequote")]
                 varying = [x_ for x_ in extra if not isinstance(x_, ast.Constant) and not (isinstance(x_, ast.Attribute) and (idx.qualname(fi_.module, x_, fi_) or "").startswith("csv."))]
                 if len(varying) == 1 and isinstance(varying[0], ast.Name):
+                    # a quoting rule picked from csv's own constants by a test
+                    qdefs = [a_.value for a_ in ast.walk(fi_.node) if isinstance(a_, ast.Assign) and len(a_.targets) == 1 and isinstance(a_.targets[0], ast.Name) and a_.targets[0].id == varying[0].id]
+                    qset = set()
+                    for v_ in qdefs:
+                        for alt_ in ([v_.body, v_.orelse] if isinstance(v_, ast.IfExp) else [v_]):
+                            q2_ = idx.qualname(fi_.module, alt_, fi_) if isinstance(alt_, (ast.Attribute, ast.Name)) else None
+                            qset.add(q2_ if q2_ and q2_.startswith("csv.QUOTE_") else None)
+                    if qdefs and None not in qset:
+                        if qset == {"csv.QUOTE_MINIMAL"}:
+                            varying = []
+                        else:
+                            undecided_.append("C17.i: `%s` is one of %s, chosen at run time; whether a table the writer produced is always read with the writer's quoting is not decided" % (varying[0].id, sorted(qset)))
+                            continue
+                if len(varying) == 1 and isinstance(varying[0], ast.Name):
                     choice = _fixed_dialects(idx, fi_, varying[0].id)
                     if choice is not None and len(choice) == 1 and next(iter(choice)) in ("csv.excel",):
                         varying = []
